@@ -14,7 +14,21 @@ Experiments (field "exp" of a case)
                modified (every single bit; random bytes; block swap; response of an earlier session)
   ndef-read    NDEF read (tag.ndef) on an authenticated Lite/Lite-S tag with any response of the read modified
   write-mac    Lite-S write_with_mac: success reported <=> the model (which verifies MAC_A and WCNT itself) applied it
-  protect      protect(p) on a factory tag, fresh activation, authenticate(p) / authenticate(q)
+  protect      protect(p) on a factory tag, fresh activation, authenticate(p) / authenticate(q); the same on tags that
+               hold another key (personalised, never locked: the empty password in all accepted forms must bring the
+               factory key back, the previous key must stop working) and on FeliCa tags with locked system blocks
+               (protect may refuse there; a reported success is judged the same way)
+
+Counterfeit tags / block count (mode "reblock"): every Read response of the FeliCa authentication exchange, of
+read_with_mac and of the NDEF read is also delivered as a *well-formed* response (LEN octet right, status 0000) that
+carries another sequence of blocks than requested: none, every proper prefix and suffix, blocks appended / inserted /
+duplicated, with the count octet adjusted or left as the tag sent it - what a tag without the key or a man in the
+middle that cuts or pads a response produces.  A tag that holds another key must never authenticate; data returned
+by read_with_mac / tag.ndef must be what the model holds for the requested blocks.  When blocks are only appended
+behind the genuine ones nothing the tag sent is changed: accepting that is observed, not judged.
+Mode "resize": PWD_AUTH / Ultralight C AUTHENTICATE responses cut short or made longer (judged only against tags that
+hold another key; a NAK is never made longer for the plain text PWD/PACK scheme).
+write-mac additionally runs several writes with MAC in one session (WCNT moves between them, low byte carries).
 
 Key derivation (written from the docstrings of authenticate()/protect(), see `derive`):
   FeliCa Lite/Lite-S  empty -> 16 zero bytes, 1..15 bytes -> ValueError, else the first 16 bytes (CK1 || CK2)
@@ -43,7 +57,11 @@ RULE = ("cases = (tag kind {FeliCa Lite, Lite-S, Lite-S/Link, NTAG210/212/213/21
         "WCNT flip + forged write status for auth-tamper; (key, 1-3 "
         "block numbers) x every single bit of the Read response + random modifications + earlier-session replay "
         "for read_with_mac; NDEF read and write_with_mac likewise; protect(p) -> authenticate(p)/authenticate(q) "
-        "pairs. A case is distinct by (experiment, tag model, password, modification) and non-trivial when the "
+        "pairs on factory tags, on tags holding another key (empty password as bytes/bytearray/str and a new key) "
+        "and on locked FeliCa tags; every Read response of those exchanges as a well-formed response with another "
+        "number of blocks {0, each proper prefix/suffix, appended, inserted, duplicated} x count octet {adjusted, "
+        "kept} against key-holding and other-key tags; PWD_AUTH/AUTHENTICATE responses of other lengths; 1-4 writes "
+        "with MAC per session. A case is distinct by (experiment, tag model, password, modification) and non-trivial when the "
         "deciding call was reached (tag activated, set-up authentication succeeded, modification applied).")
 ASSUMPTIONS = [
     "vf.sim.t3t / vf.ref.felica_mac (session key, MAC, MAC_A, WCNT rules from the FeliCa Lite/Lite-S manuals) and "
@@ -63,7 +81,16 @@ REQUIRED = ["sessions_lite", "sessions_lites", "sessions_ntag21x", "sessions_ulc
             "auth_not_true_wrong_key", "authT_covered_rejected", "mac_read_untampered_ok", "mac_tamper_data_rejected",
             "mac_tamper_mac_rejected", "mac_replay_rejected", "ndef_read_untampered_ok",
             "ndef_tamper_covered_rejected", "maca_write_ok", "maca_wcnt_tamper_rejected", "protect_auth_pairs_ok",
-            "protect_other_password_rejected", "lites_mutual_checked", "authT_forged_write_status_rejected"]
+            "protect_other_password_rejected", "lites_mutual_checked", "authT_forged_write_status_rejected",
+            # well-formed responses with another number of blocks / another length
+            "authT_reblock_wrong_key_rejected", "authT_reblock_key_held_rejected", "authT_reblock_zero_blocks_rejected",
+            "mac_reblock_rejected", "mac_reblock_zero_blocks_rejected", "ndef_reblock_rejected",
+            "authT_resize_wrong_key_rejected",
+            # protect on tags that hold another key
+            "protect_pairs_ok_issuer_key_empty_password/lite", "protect_pairs_ok_issuer_key_empty_password/lites",
+            "protect_pairs_ok_issuer_key_empty_password/ntag21x", "protect_pairs_ok_issuer_key_empty_password/ulc",
+            "protect_pairs_ok_issuer_key_nonempty_password", "protect_previous_key_rejected", "protect_locked_reached",
+            "maca_write_ok_after_prior_writes"]
 
 NTAGS = ("ntag210", "ntag212", "ntag213", "ntag215", "ntag216")
 ULEV1 = ("ul11", "ul21")
@@ -249,7 +276,65 @@ def apply_action(act, rsp):
             r[a:a + n], r[b:b + n] = r[b:b + n], r[a:a + n]
     elif "replace" in act:
         r = bytearray(act["replace"])
+    elif "reblock" in act:
+        r = bytearray(reblocked(rsp, act))
+    elif "resize" in act:
+        n = int(act["resize"])
+        fill = bytes(act.get("fill", b"")) or b"\x00"
+        r = (r + bytearray((fill * (n // len(fill) + 1))[:max(0, n - len(r))]))[:n]
     return bytes(r)
+
+
+def t3_blocks(rsp):
+    """-> (count octet, [16 byte blocks]) of a successful Read Without Encryption response, else None"""
+    if rsp is None or len(rsp) < 13 or rsp[1] != 0x07 or rsp[10] != 0 or (len(rsp) - 13) % 16:
+        return None
+    return rsp[12], [bytes(rsp[13 + i:29 + i]) for i in range(0, len(rsp) - 13, 16)]
+
+
+def reblocked(rsp, act):
+    """a well-formed Read response that carries another sequence of blocks than the tag sent: act["reblock"] lists
+    the genuine blocks to deliver by index (an index outside the genuine response: 16 bytes taken from act["fill"]);
+    act["nb"] is the count octet ("keep": as sent by the tag, otherwise the number of blocks delivered); the
+    frame length octet is always made right (a frame with a wrong LEN never reaches the tag layer)"""
+    g = t3_blocks(rsp)
+    if g is None:
+        return rsp
+    nb, blocks = g
+    fill = (bytes(act.get("fill", b"")) + bytes(16))[:16]
+    seq = [blocks[i] if 0 <= i < len(blocks) else fill for i in act["reblock"]]
+    if len(seq) > 15:
+        return rsp
+    count = nb if act.get("nb") == "keep" else len(seq)
+    out = bytearray(rsp[:12]) + bytes([count]) + b"".join(seq)
+    out[0] = len(out)
+    return bytes(out)
+
+
+def reblock_variants(n):
+    """block sequences (indices; n or more = filler) for a genuine response of n blocks: nothing, every proper
+    prefix and suffix, one block more at either end or in the middle, a duplicated first / last block, two more"""
+    F = 99
+    full = list(range(n))
+    out = [[]]
+    out += [full[:k] for k in range(1, n)]
+    out += [full[n - k:] for k in range(1, n)]
+    out += [full + [F], [F] + full, full + [n - 1], [0] + full, full + [F, F]]
+    if n >= 2:
+        out += [full[:-1] + [F] + full[-1:], full[1:] + full[:1]]
+    seen, uniq = set(), []
+    for v in out:
+        if tuple(v) not in seen and v != full:
+            seen.add(tuple(v))
+            uniq.append(v)
+    return uniq
+
+
+def reblock_label(act, n):
+    """structural class of a reblock action (goes into counters)"""
+    k = len(act["reblock"])
+    return "%s-blocks/count-%s" % ("zero" if k == 0 else "fewer" if k < n else "more" if k > n else "same-number",
+                                   "kept" if act.get("nb") == "keep" else "adjusted")
 
 
 # ---- what a response byte is --------------------------------------------------------------------------
@@ -347,6 +432,25 @@ def touched(kind, cmd, rsp, out):
     """set of parts in which the delivered response differs from the genuine one"""
     if rsp is None or out is None:
         return set()
+    if kind in ("lite", "lites"):
+        g, d = t3_blocks(rsp), t3_blocks(out)
+        if g is not None and d is not None and len(g[1]) != len(d[1]) and rsp[1:12] == out[1:12]:
+            # same header and status, another number of blocks: say which protected quantities are not the genuine ones
+            s = {"length"}
+            if g[0] != d[0]:
+                s.add("nblk")
+            if d[1][:len(g[1])] == g[1]:
+                s.add("padding")        # everything the tag sent is there, where it was: blocks were only appended
+                return s
+            nums = t3_parse(cmd)[1]
+            if nums[-1:] == [0x81]:
+                if d[1][:-1] != g[1][:-1]:
+                    s.add("data")
+                if not d[1] or d[1][-1][:8] != g[1][-1][:8]:
+                    s.add("mac")
+            else:
+                s.add("wcnt" if nums == [0x90] else "plain")
+            return s
     s = set()
     if len(rsp) != len(out):
         s.add("length")
@@ -562,6 +666,18 @@ def x_auth_tamper(case, R):
     ok = okind(res)
     is_true = res == ("ret", True)
     mode = case.get("mode", "bit")
+    if mode in ("reblock", "resize"):
+        # structurally valid response of another size: the class (not the bytes that differ) names the case
+        label = "block-count" if mode == "reblock" else "length"
+        cls = (reblock_label(case["tamper"], len(t3_blocks(rsp)[1])) if mode == "reblock" else
+               "%s-%s" % (role, "shorter" if len(out) < len(rsp) else "longer"))
+        R.count("authT_%s/%s/%s/%s/%s" % (mode, fam, "key-held" if holds(ms, pw) else "other-key", cls,
+                                          "accepted" if is_true else "rejected"))
+        R.seen("authT_%s_roles/%s" % (mode, fam), role)
+        if not is_true:
+            R.count("authT_%s_%s_rejected" % (mode, "key_held" if holds(ms, pw) else "wrong_key"))
+            if mode == "reblock" and not case["tamper"]["reblock"]:
+                R.count("authT_reblock_zero_blocks_rejected")
     R.count("authT/%s/%s/%s/%s" % (fam, role, label, "accepted" if is_true else "rejected"))
     if not is_true:
         R.count("authT_reject_kind/%s/%s" % (fam, ok))
@@ -577,14 +693,15 @@ def x_auth_tamper(case, R):
         elif mode == "forged-write-status":
             sig = "auth/accepted-tampered/%s/forged-write-status" % fam
         elif not holds(ms, pw):
-            sig = "auth/false-positive/%s/substituted-%s" % (fam, role)
+            sig = "auth/false-positive/%s/%s-%s" % (fam, mode if mode in ("reblock", "resize") else "substituted", role)
         else:
             sig = "auth/accepted-tampered/%s/%s/%s" % (fam, role, label)
         report(R, sess, sig, what, case)
     elif is_true and not holds(ms, pw):
-        report(R, sess, "auth/false-positive/%s/tampered-%s" % (fam, role),
-               "authenticate() returned True although the model holds another key (a non covered field was modified)",
-               case)
+        report(R, sess, "auth/false-positive/%s/%s-%s" % (fam, mode if mode in ("reblock", "resize") else "tampered",
+                                                          role),
+               "authenticate() returned True although the model holds another key (%s response modified in %s, %s)"
+               % (role, sorted(parts), mode), case)
     elif covered:
         R.count("authT_covered_rejected")
     else:
@@ -646,7 +763,8 @@ def readmac_session(case, R, tampers, sess=None, cache=True):
         res = call(lambda: tag.read_with_mac(*blocks))
         tr = sess.mitm.trace
         sess.mitm.disarm()
-        judge_read(R, sess, dict(case, tamper=act), tr, res, want, blocks)
+        judge_read(R, sess, dict(case, tamper=act, mode="reblock" if "reblock" in act else case.get("mode", "bit")),
+                   tr, res, want, blocks)
     sess.mitm.cache = None
     return sess
 
@@ -665,6 +783,14 @@ def judge_read(R, sess, case, tr, res, want, blocks):
     returned = res[0] == "ret" and isinstance(res[1], (bytes, bytearray))
     if "bit" in act:
         R.seen("mac_positions/%d-blocks" % len(blocks), act["bit"])
+    if mode == "reblock":
+        label = "block-count"
+        R.count("mac_reblock/%s/%s/%s" % (fam, reblock_label(act, len(blocks) + 1),
+                                          "returned-data" if returned else "rejected"))
+        if not returned:
+            R.count("mac_reblock_rejected")
+            if not act["reblock"]:
+                R.count("mac_reblock_zero_blocks_rejected")
     if mode == "splice":
         # a genuine answer of this very session for other blocks: outside the quantifier, observed only
         R.count("mac_same_session_splice_" + ("accepted" if returned else "rejected"))
@@ -674,6 +800,8 @@ def judge_read(R, sess, case, tr, res, want, blocks):
         R.count("mac_reject_kind/%s" % okind(res))
         if mode == "replay":
             R.count("mac_replay_rejected")
+        elif mode == "reblock":
+            pass
         elif "data" in parts:
             R.count("mac_tamper_data_rejected")
         elif "mac" in parts:
@@ -684,7 +812,8 @@ def judge_read(R, sess, case, tr, res, want, blocks):
     got = bytes(res[1])
     if got != want:
         sig = ("mac/accepted-replay/%s" % fam if mode == "replay" else
-               "mac/accepted-tampered/%s/%s" % (fam, "data" if "data" in parts else label))
+               "mac/accepted-tampered/%s/%s" % (fam, label if mode == "reblock" else
+                                                "data" if "data" in parts else label))
         report(R, sess, sig, "read_with_mac%r returned %s while the model holds %s (response modified in %s, %s)"
                % (tuple(blocks), got.hex(), want.hex(), sorted(parts), mode), case)
     elif parts & COVERED:
@@ -748,12 +877,19 @@ def x_ndef_read(case, R):
     covered = bool(parts & COVERED) and role == "mac-read"
     if "bit" in act:
         R.seen("ndef_positions", "%d:%d" % (at, act["bit"]))
+    if "reblock" in act:
+        label = "block-count"
+        R.count("ndef_reblock/%s/%s/%s/%s" % (fam, role, reblock_label(act, len(t3_blocks(rsp)[1])),
+                                              "returned-data" if returned else "rejected"))
+        if not returned and role == "mac-read":
+            R.count("ndef_reblock_rejected")
     R.count("ndef/%s/%s/%s/%s" % (fam, role, label, "returned-data" if returned else "rejected"))
     if not returned:
         R.count("ndef_reject_kind/%s" % okind(res))
         R.count("ndef_tamper_covered_rejected" if covered else "ndef_tamper_uncovered_rejected")
     elif res[1] != want:
-        report(R, sess, "ndef/accepted-tampered/%s/%s/%s" % (fam, role, "data" if "data" in parts else label),
+        report(R, sess, "ndef/accepted-tampered/%s/%s/%s" % (fam, role, label if "reblock" in act else
+                                                             "data" if "data" in parts else label),
                "tag.ndef.octets = %s on an authenticated tag while the model holds %s (%s response modified in %s)"
                % (res[1].hex(), want.hex(), role, sorted(parts)), case)
     elif covered:
@@ -776,6 +912,18 @@ def x_write_mac(case, R):
             R.case(("wmac", ms, block, case.get("tamper")), nontrivial=False)
             return None
         act = case.get("tamper")
+        pre_ok = 0
+        for b, d in case.get("pre", []):
+            # earlier writes of the same session: every one moves WCNT, which takes part in the next MAC_A
+            n0 = len(model.write_log)
+            r0 = call(lambda: tag.write_with_mac(bytes(d), int(b)))
+            new0 = model.write_log[n0:]
+            if r0 == ("ret", None) and new0 and new0[-1][1] and new0[-1][0] == [int(b), 0x91]:
+                pre_ok += 1
+            elif r0 == ("ret", None):
+                report(R, sess, "maca/success-but-model-rejected/untampered",
+                       "write_with_mac (an earlier write of the session) returned normally but the tag model did "
+                       "not apply the write", case)
         wcnt_before = bytes(model.blocks[0x90][0:3])
         rc, ck = model.rc_block, model.ck_block
         nlog = len(model.write_log)
@@ -784,7 +932,7 @@ def x_write_mac(case, R):
     tr = sess.mitm.trace
     sess.mitm.disarm()
     applied_t = act is None or (int(act["at"]) < len(tr) and tr[int(act["at"])][1] != tr[int(act["at"])][2])
-    R.case(("wmac", ms, block, data, act), nontrivial=applied_t)
+    R.case(("wmac", ms, block, data, act, case.get("pre")), nontrivial=applied_t)
     if not applied_t:
         R.count("maca_tamper_not_applied")
         return tr
@@ -819,6 +967,9 @@ def x_write_mac(case, R):
                "write_with_mac returned normally but the tag model did not apply the write", case)
     elif success and model_applied:
         R.count("maca_write_ok" if act is None else "maca_write_ok_uncovered_tamper")
+        if act is None and case.get("pre") and pre_ok == len(case["pre"]):
+            R.count("maca_write_ok_after_prior_writes")
+            R.max("maca_writes_in_one_session", pre_ok + 1)
     elif not success:
         if act is None:
             R.count("maca_untampered_rejected/%s" % okind(res))
@@ -831,17 +982,27 @@ def x_write_mac(case, R):
 
 # ---- protect -> authenticate --------------------------------------------------------------------------
 def x_protect(case, R):
+    """case["prior"]: state of the tag before protect()
+         factory  the factory key (default)
+         issuer   another key (ms["key"]), everything still writable: a personalised tag that was never locked
+         locked   another key, system blocks locked (FeliCa, ms["mc"]); case["pre_auth"]: authenticate with the
+                  key the tag holds first.  Here protect() may refuse; only a reported success is judged."""
     ms, pw, ptype = case["ms"], case["pw"], case.get("ptype", "bytes")
+    prior = case.get("prior", "factory")
     sess = Sess(ms, R)
     fam, kind = sess.fam, sess.kind
     tag = sess.open()
-    R.case(("protect", ms, repr(pw), ptype, case.get("pf", 0)), nontrivial=tag is not None)
+    R.case(("protect", ms, repr(pw), ptype, case.get("pf", 0), prior, case.get("pre_auth")), nontrivial=tag is not None)
     if tag is None or not check_tag_class(R, sess, case):
         return
     key = derive(fam, pw)
+    empty = len(pw_bytes(pw)) == 0
+    if case.get("pre_auth"):
+        if call(lambda: tag.authenticate(bytes(ms["key"]))) != ("ret", True):
+            R.count("setup_authenticate_failed")
     res = call(lambda: tag.protect(pw_obj(pw, ptype), protect_from=int(case.get("pf", 0))))
     ok = okind(res)
-    R.count("protect/%s/%s/len-%s/%s" % (fam, ptype, "valid" if key is not None else "invalid", ok))
+    R.count("protect/%s/%s/%s/len-%s/%s" % (fam, prior, ptype, "valid" if key is not None else "invalid", ok))
     if key is None:
         if res == ("ret", True):
             report(R, sess, "protect/accepted-invalid-password/%s" % fam,
@@ -850,32 +1011,43 @@ def x_protect(case, R):
         else:
             R.count("protect_invalid_length_rejected")
         return
+    if prior == "locked":
+        R.count("protect_locked_reached")
     if res != ("ret", True):
+        if prior == "locked":
+            R.count("protect_locked_not_true")
+            R.count("protect_locked_refused/%s/%s/%s" % (fam, "after-auth" if case.get("pre_auth") else "no-auth", ok))
+            return
         if ptype == "str" and fam != "lites":
             R.count("str_password_rejected/%s/protect/%s" % (fam, ok))
             return
         report(R, sess, "protect/failed/%s/%s/%s" % (fam, ptype, ok),
-               "protect() of a factory %s tag with a valid %d byte %s password %s"
-               % (kind, len(pw_bytes(pw)), ptype, describe(res)), case)
+               "protect() of a %s %s tag (all blocks writable) with a valid %d byte %s password %s"
+               % (prior, kind, len(pw_bytes(pw)), ptype, describe(res)), case)
         return
+    cls = "%s_key_%s_password" % (prior, "empty" if empty else "nonempty")
     stored = model_key(sess.model, kind)
-    if canon(fam, stored) != canon(fam, key):
+    stored_ok = canon(fam, stored) == canon(fam, key)
+    if not stored_ok:
         report(R, sess, "protect/wrong-key-stored/%s" % fam,
-               "protect() returned True, the tag model now holds %s, the key derived from the password is %s"
-               % (stored.hex(), key.hex()), case)
-        return
-    R.count("protect_key_stored_ok")
+               "protect() returned True on a %s tag (%s), the tag model now holds %s, the key derived from the "
+               "password is %s" % (kind, prior, stored.hex(), key.hex()), case)
+        # (the authentications below are still made and judged: what counts is what the tag answers)
+    else:
+        R.count("protect_key_stored_ok")
     # a new session: the same password (the very same kind of object) must authenticate
     tag = sess.open()
     res = call(lambda: tag.authenticate(pw_obj(pw, ptype)))
     if res == ("ret", True):
         R.count("protect_auth_pairs_ok")
         R.count("protect_auth_pairs_ok/%s/%s" % (fam, ptype))
+        R.count("protect_pairs_ok_" + cls)
+        R.count("protect_pairs_ok_%s/%s" % (cls, fam))
         post_auth_checks(R, sess, res, case)
     else:
         report(R, sess, "protect-auth/same-password-fails/%s/%s/%s" % (fam, ptype, okind(res)),
-               "protect(p) returned True on a %s tag; in a new session authenticate(p) with the same %s object %s"
-               % (kind, ptype, describe(res)), case)
+               "protect(p) returned True on a %s tag (%s); in a new session authenticate(p) with the same %s object %s"
+               % (kind, prior, ptype, describe(res)), case)
     if ptype == "str":
         tag = sess.open()
         res = call(lambda: tag.authenticate(pw_bytes(pw)))
@@ -901,6 +1073,8 @@ def x_protect(case, R):
         else:
             R.count("protect_other_password_rejected")
             R.count("protect_other_rejected/%s/%s" % (rel, okind(res)))
+            if rel == "previous-key":
+                R.count("protect_previous_key_rejected")
 
 
 EXPERIMENTS = {"auth": x_auth, "auth-tamper": x_auth_tamper, "read-mac": x_read_mac, "ndef-read": x_ndef_read,
@@ -1099,6 +1273,87 @@ def w_auth_tamper(R, rng, desc):
             evaluate(case, R)
 
 
+def other_key(rng, fam, d):
+    """a key that is not the one derived from the password (also not modulo DES parity)"""
+    n = KEYLEN[fam]
+    c = rng.randrange(3)
+    if c == 0 and d != FACTORY[fam]:
+        return FACTORY[fam], "factory"
+    if c == 1:
+        des = fam in ("lite", "lites", "ulc")
+        return flip_bit(d, rng.randrange(n) * 8 + rng.randrange(7) if des else rng.randrange(n * 8)), "one-bit"
+    while True:
+        k = rng.randbytes(n)
+        if canon(fam, k) != canon(fam, d):
+            return k, "random"
+
+
+def w_auth_reblock(R, rng, desc):
+    """FeliCa Lite / Lite-S: every Read response of the authentication exchange delivered as a well-formed
+    response with another number of blocks (a counterfeit tag / a man in the middle that cuts or pads and repairs
+    the length and count octets), against a tag that holds the key and against tags that hold another key"""
+    shard, j = desc["shard"], 0
+    for kind in ("lite", "lites"):
+        for held in (False, True):
+            pw = gen_password(rng, kind, "bytes", rng.choice([0, 16, 16, 24]))
+            d = derive(kind, pw)
+            key, rel = (d, "same") if held else other_key(rng, kind, d)
+            ms = t3_spec(rng, kind, key)
+            # the genuine exchange of a tag that holds the key gives the positions and sizes of the read responses;
+            # against another key the exchange ends after the first read, later positions are then not reached
+            ref = reference_exchange(R, dict(ms, key=d), pw)
+            if ref is None:
+                continue
+            for at, (cmd, rsp) in enumerate(ref):
+                g = t3_blocks(rsp)
+                if g is None or t3_parse(cmd)[0] != 0x06:
+                    continue
+                if not held and role_of(kind, cmd) != "id-read":
+                    continue
+                for seq in reblock_variants(len(g[1])):
+                    j += 1
+                    # (the empty response with both count octets in every shard, the others with one of them)
+                    for nb in (("adjust", "keep") if not seq else (("adjust", "keep")[(j + shard) % 2],)):
+                        act = {"at": at, "reblock": seq, "nb": nb, "fill": rng.randbytes(16)}
+                        evaluate({"exp": "auth-tamper", "ms": ms, "pw": pw, "tamper": act, "mode": "reblock",
+                                  "rel": rel}, R)
+
+
+def w_auth_resize(R, rng, desc):
+    """NTAG21x / Ultralight EV1 PWD_AUTH and the two Ultralight C AUTHENTICATE responses cut short or made longer"""
+    for kind in (NTAGS[desc["shard"] % 5], ULEV1[desc["shard"] % 2], "ulc", "ulc"):
+        fam = family(kind)
+        for held in (True, False, False):
+            pw = gen_password(rng, fam, "bytes", rng.choice([0, KEYLEN[fam], KEYLEN[fam] + 3]))
+            d = derive(fam, pw)
+            if held:
+                key, rel = d, "same"
+            elif fam == "ulc":
+                key, rel = other_key(rng, fam, d)
+            else:
+                # the PWD is right (the tag answers with its PACK), the PACK is not: one byte of it or both
+                c = rng.randrange(3)
+                pack = bytes([d[4] ^ (rng.randrange(1, 256) if c != 0 else 0), d[5] ^ (rng.randrange(1, 256) if c != 1 else 0)])
+                key, rel = d[:4] + pack, "pwd-same-pack-%s" % ("second-byte-differs", "first-byte-differs", "differs")[c]
+            ms = t2_spec(rng, kind, key)
+            sess = Sess(ms)
+            tag = sess.open()
+            if tag is None:
+                continue
+            sess.mitm.arm({})
+            call(lambda: tag.authenticate(pw_bytes(pw)))
+            ref = [(c_, r_) for c_, r_, _ in sess.mitm.trace]
+            for at, (cmd, rsp) in enumerate(ref):
+                if rsp is None or role_of(kind, cmd) not in ("pwd-auth", "auth1", "auth2"):
+                    continue
+                n = len(rsp)
+                for size in sorted(set([0, 1, n - 1, n + 1, n + 8, 2 * n]) - {n, -1}):
+                    if fam != "ulc" and not held and size > n and rsp[:1] in (b"\x00", b"\x04") and n == 1:
+                        continue          # a NAK made longer would be a forged PACK (plain text scheme): not judged
+                    act = {"at": at, "resize": size, "fill": rng.randbytes(8)}
+                    evaluate({"exp": "auth-tamper", "ms": ms, "pw": pw, "tamper": act, "mode": "resize", "rel": rel}, R)
+
+
 READABLE_LITE = list(range(0, 15)) + [0x80, 0x82, 0x83, 0x84, 0x85, 0x86, 0x88]
 READABLE_LITES = READABLE_LITE + [0x90, 0x92, 0xA0]
 
@@ -1121,7 +1376,11 @@ def w_read_mac(R, rng, desc):
             blocks = gen_blocks(rng, kind, nblocks)
             nbits = (13 + 16 * (nblocks + 1)) * 8
             case = {"exp": "read-mac", "ms": ms, "pw": pw, "blocks": blocks, "mode": "bit"}
-            readmac_session(case, R, [{"bit": b} for b in range(nbits)])
+            acts = [{"bit": b} for b in range(nbits)]
+            # the same response as a well-formed frame with another number of blocks (count octet adjusted or not)
+            acts += [{"reblock": seq, "nb": nb, "fill": rng.randbytes(16)}
+                     for seq in reblock_variants(nblocks + 1) for nb in ("adjust", "keep")]
+            readmac_session(case, R, acts)
             R.count("mac_full_bit_enumerations")
             if it <= 1:
                 R.sample({"exp": "read-mac", "kind": kind, "blocks": blocks, "single_bit_positions": nbits})
@@ -1193,6 +1452,14 @@ def w_ndef(R, rng, desc):
         for j, (i, b) in enumerate(pos):
             if (j + shard + s) % 16 == 0:
                 evaluate(dict(base, tamper={"at": i, "bit": b}, mode="bit"), R)
+        macreads = [(i, t3_blocks(t[1])) for i, t in enumerate(tr)
+                    if t[1] is not None and role_of(kind, t[0]) == "mac-read" and t3_blocks(t[1]) is not None]
+        for i, g in macreads[:1] + macreads[-1:]:
+            n = len(g[1])
+            for seq in ([], list(range(n - 1)), list(range(1, n)), list(range(n)) + [99], list(range(n - 2)) + [n - 1]):
+                if seq != list(range(n)):
+                    evaluate(dict(base, tamper={"at": i, "reblock": seq, "nb": rng.choice(["adjust", "keep"]),
+                                                "fill": rng.randbytes(16)}, mode="reblock"), R)
         for _ in range(desc["ndef_rand"]):
             i = rng.randrange(len(tr))
             rsp = tr[i][1]
@@ -1219,6 +1486,11 @@ def w_write_mac(R, rng, desc):
             ms["mc"] = bytes([0xFF, 0xFF, 0x00, 0x01, 0x07, 0x01, 0x00, 0x00, 0xFF, 0x3F, 0xFF, 0x3F, 0, 0, 0, 0])
         case = {"exp": "write-mac", "ms": ms, "pw": pw, "block": rng.randrange(0, 14), "data": rng.randbytes(16),
                 "tamper": None}
+        if i % 3 == 2:
+            # several writes with MAC in one session (same and other blocks); WCNT low byte about to carry
+            ms["wcnt"] = rng.choice([ms["wcnt"], 0xFE, 0xFFFE, 0x01FFFD])
+            case["pre"] = [[rng.choice([case["block"], rng.randrange(0, 14)]), rng.randbytes(16)]
+                           for _ in range(rng.randrange(1, 4))]
         tr = x_write_mac(case, R)
         if not tr or i >= desc["wmac_stripes"]:
             continue
@@ -1260,13 +1532,77 @@ def w_protect(R, rng, desc):
                     evaluate(case, R)
 
 
+LOCKED_MC = {  # name: (kind, MC block, authenticate with the held key first)
+    "lite-locked": ("lite", bytes([0xFF, 0xFF, 0x00, 0x01, 0x07]) + bytes(11), False),
+    "lites-locked-keychange-off": ("lites", bytes([0xFF, 0xFF, 0x00, 0x01, 0x07, 0x00]) + bytes(10), False),
+    "lites-locked-keychange-on": ("lites", bytes([0xFF, 0xFF, 0x00, 0x01, 0x07, 0x01]) + bytes(10), False),
+    "lites-locked-keychange-on-authenticated": ("lites", bytes([0xFF, 0xFF, 0x00, 0x01, 0x07, 0x01]) + bytes(10), True),
+}
+
+
+def protect_others(rng, fam, pw, key, prior_key=None):
+    n = KEYLEN[fam]
+    b = pw_bytes(pw)
+    base = b if len(b) >= n else key          # empty password: the factory key spelled out
+    des = fam in ("lite", "lites", "ulc")
+    others = []
+    if prior_key is not None and canon(fam, prior_key) != canon(fam, key):
+        others.append([bytes(prior_key), "previous-key"])
+    bit = rng.randrange(n) * 8 + rng.randrange(7) if des else rng.randrange(n * 8)
+    others.append([flip_bit(base, bit), "one-bit"])
+    others.append([rng.randbytes(max(n, len(b))), "random"])
+    if len(b) > 0:
+        others.append([b"", "factory"])
+    return others
+
+
+def w_protect_prior(R, rng, desc):
+    """protect() of tags that do not hold the factory key: personalised but never locked ('issuer': the documented
+    empty password in every accepted form brings the factory key back, a non-empty one sets a new key), and FeliCa
+    tags whose system blocks are locked ('locked': protect() may refuse, a reported success is judged)"""
+    shard = desc["shard"]
+    for rep in range(desc["protect"]):
+        kinds = ["lite", "lites", "lites", NTAGS[(shard + rep) % 5], ULEV1[(shard + rep) % 2], "ulc"]
+        for kind in kinds:
+            fam = family(kind)
+            n = KEYLEN[fam]
+            todo = [(0, "bytes"), (0, "bytearray"), (0, "str"), (rng.choice([n, n + 1, 32]), rng.choice(["bytes", "bytearray"]))]
+            for length, ptype in todo:
+                pw = gen_password(rng, fam, ptype, length)
+                key = derive(fam, pw)
+                while True:
+                    prior_key = rng.randbytes(n)
+                    if canon(fam, prior_key) not in (canon(fam, key), canon(fam, FACTORY[fam])):
+                        break
+                ms = spec_for(rng, kind, prior_key, msg=rng.randbytes(rng.choice([0, 7, 40])), ndef=True) \
+                    if kind in ("lite", "lites") else spec_for(rng, kind, prior_key)
+                evaluate({"exp": "protect", "ms": ms, "pw": pw, "ptype": ptype, "pf": rng.choice([0, 0, 2, 4]),
+                          "prior": "issuer", "others": protect_others(rng, fam, pw, key, prior_key)}, R)
+        for name, (kind, mc, pre_auth) in sorted(LOCKED_MC.items()):
+            for length, ptype in ((0, ("bytes", "bytearray", "str")[(shard + rep) % 3]), (16, "bytes")):
+                pw = gen_password(rng, kind, ptype, length)
+                key = derive(kind, pw)
+                while True:
+                    prior_key = rng.randbytes(16)
+                    if canon(kind, prior_key) not in (canon(kind, key), canon(kind, FACTORY[kind])):
+                        break
+                ms = t3_spec(rng, kind, prior_key, msg=rng.randbytes(rng.choice([0, 7, 40])), ndef=True)
+                ms["mc"] = mc
+                evaluate({"exp": "protect", "ms": ms, "pw": pw, "ptype": ptype, "pf": rng.choice([0, 2]),
+                          "prior": "locked", "pre_auth": pre_auth, "locked": name,
+                          "others": protect_others(rng, kind, pw, key, prior_key)}, R)
+
+
 def run(desc, R, rng):
     felica = ["lite", "lites"]
     w_auth(R, rng, felica, desc["auth_felica"])
     w_auth(R, rng, list(NTAGS + ULEV1), desc["auth_ntag"])
     w_auth(R, rng, ["ulc"], desc["auth_ulc"])
     w_auth_tamper(R, rng, desc)
+    w_auth_reblock(R, rng, desc)
+    w_auth_resize(R, rng, desc)
     w_read_mac(R, rng, desc)
     w_ndef(R, rng, desc)
     w_write_mac(R, rng, desc)
     w_protect(R, rng, desc)
+    w_protect_prior(R, rng, desc)
